@@ -265,6 +265,18 @@ theorem biTup_pres (hR : StRel R) (args : List (EvalM Val)) (h : PArgs R args) :
   unfold biTup
   repeat (first | (pres_step h hR) | (apply tupItems_pres hR; assumption))
 
+-- BEGIN r10 (abs and pow are now modelled and dispatched by evalBuiltin)
+theorem biAbs_pres (hR : StRel R)  (args : List (EvalM Val)) (h : PArgs R args) :
+    Pres R (biAbs (m := EvalM)  args) := by
+  unfold biAbs
+  repeat (first | pres_step h hR)
+
+theorem biPow_pres (hR : StRel R)  (args : List (EvalM Val)) (h : PArgs R args) :
+    Pres R (biPow (m := EvalM)  args) := by
+  unfold biPow
+  repeat (first | pres_step h hR)
+-- END r10
+
 theorem biSubstr_pres (hR : StRel R) (args : List (EvalM Val)) (h : PArgs R args) : Pres R (biSubstr (m := EvalM) args) :=
   substrLike_pres hR _ _ _ _ _ h
 theorem biSubraw_pres (hR : StRel R) (args : List (EvalM Val)) (h : PArgs R args) : Pres R (biSubraw (m := EvalM) args) :=
@@ -295,6 +307,10 @@ theorem evalBuiltin_pres (hR : StRel R) (fmt : Num.F64 → Bytes) (name : String
   · cases hr; exact biB64_pres hR _ _ h
   · cases hr; exact biB64_pres hR _ _ h
   · cases hr; exact biStr_pres hR _ _ h
+  -- BEGIN r10
+  · cases hr; exact biAbs_pres hR _ h
+  · cases hr; exact biPow_pres hR _ h
+  -- END r10
   · cases hr
 
 /-! ## Part 2: the stack of running `forall` loops -/
